@@ -349,6 +349,9 @@ fn execute(plan: &VecPlan, mode: Mode) -> RunOut {
         plan.tuples.iter().position(|t| *t == vals)
     };
     let mut collects: Vec<(u32, usize, usize, Vec<(u32, f64)>)> = vec![];
+    // successful detaches: (tuple or None for reset, invoke, return); children: cell -> (tuple, earliest return of a get)
+    let mut detaches: Vec<(Option<usize>, usize, usize)> = vec![];
+    let mut born: BTreeMap<u32, (usize, usize)> = BTreeMap::new();
     let mut ident_unavailable = 0u64;
     let mut identity_lost = false;
     for (id, r) in results.iter() {
@@ -367,6 +370,8 @@ fn execute(plan: &VecPlan, mode: Mode) -> RunOut {
             (VOp::GetInc { tuple, bit, .. }, VRes::Got(true)) => match cell_of_bit.get(bit) {
                 Some(c) => {
                     incs.push((*bit, inv, ret, *c));
+                    let e = born.entry(*c).or_insert((*tuple, ret));
+                    e.1 = e.1.min(ret);
                     h.push(HOp { inv, ret, op: MOp::Get(*tuple, *c) });
                 }
                 None => identity_lost = true, // the update is implemented in a way the log cannot attribute
@@ -377,8 +382,16 @@ fn execute(plan: &VecPlan, mode: Mode) -> RunOut {
                     incs.push((*bit, inv, ret, *c));
                 }
             }
-            (VOp::Remove { tuple, .. }, VRes::Removed(ok)) => h.push(HOp { inv, ret, op: MOp::Remove(*tuple, *ok) }),
-            (VOp::Reset, _) => h.push(HOp { inv, ret, op: MOp::Reset }),
+            (VOp::Remove { tuple, .. }, VRes::Removed(ok)) => {
+                if *ok {
+                    detaches.push((Some(*tuple), inv, ret));
+                }
+                h.push(HOp { inv, ret, op: MOp::Remove(*tuple, *ok) })
+            }
+            (VOp::Reset, _) => {
+                detaches.push((None, inv, ret));
+                h.push(HOp { inv, ret, op: MOp::Reset })
+            }
             (VOp::Collect, VRes::Collected(samples)) => {
                 let loads = loads_in_op.get(id).cloned().unwrap_or_default();
                 // identity of the collected children is observable only if the collection read
@@ -452,6 +465,16 @@ fn execute(plan: &VecPlan, mode: Mode) -> RunOut {
             };
             for (bit, iinv, iret, c) in &incs {
                 let has = u & (1u64 << bit) != 0;
+                // a removed child no longer appears in collections while handles to it stay usable: an
+                // update made through a stale handle AFTER the child was detached cannot be part of a
+                // sample that a collection shows for that child
+                if has && c == cell {
+                    if let Some((t, first_ret)) = born.get(c) {
+                        if detaches.iter().any(|(dt, dinv, dret)| (dt.is_none() || *dt == Some(*t)) && first_ret < dinv && dret < iinv) {
+                            out.violations.push(Violation::new("C10/update", "C10/stale-update-collected", format!("collect op {} shows child {:?} with update 2^{} that was made through a stale handle after the child had been removed from the vector", id, plan.tuples[*t], bit)));
+                        }
+                    }
+                }
                 if has && (c != cell || iinv > ret) {
                     out.violations.push(Violation::new("C10/update", "C10/update", format!("collect op {}: child shows update 2^{} that was made on another child or had not started", id, bit)));
                 }
